@@ -86,6 +86,9 @@ struct ModelHost {
 	virtual void harness_error(const std::string &what) = 0;
 	virtual void fetch_changed(int c, const JV &id) { (void)c; (void)id; }
 	virtual bool observable(int c) { (void)c; return true; }
+	virtual void password_resolved(int index, bool applied) { (void)index; (void)applied; }
+	virtual int password_changes() { return 0; }
+	virtual void password_changed(const std::string &user, const std::string &oldpw, const std::string &newpw, bool tentative) { (void)user; (void)oldpw; (void)newpw; (void)tentative; }
 };
 
 // ------------------------------------------------------------------ reference model
@@ -130,6 +133,7 @@ struct Model {
 	bool route_may_fail = false;                               // descriptor-exhaustion faults are being injected
 	int max_matchers = 12;
 	std::string notify_prop = "C01";                             // property that owns notification expectations in this profile
+	bool passwd_may_fail = false;                               // file-system faults are being injected: a password change may be answered with an error (and then must not have happened)
 	bool faulty_add_either = false;                             // containment profile: an impaired peer's own add may be aborted; a healthy observer's view decides
 	bool notify_hit_unobservable = false;                       // the last notify() had to deliver to a peer whose stream is not observable (stalled, failing)
 	int opt_decision = -1;                                      // >=0: notifications issued now are optional until that decision is known
